@@ -14,6 +14,7 @@ Strings in entries may contain the placeholder @TOP@ (absolute path of the scrat
 
 Item =  ["code", n] | ["blank"] | ["comment"] | ["define", name, value|None] | ["undef", name]
       | ["include", "q"|"a"|"m", spelling] | ["once"] | ["directive", text]
+      | ["bcomment", n] (block comment of n+2 lines) | ["define", name, value, "ml"] (continued, 2 lines)
       | ["cond", [[kind, expr, [Item...]], ...]]          kind in if ifdef ifndef elif else
 expr (if/elif) = ["def",X] | ["ndef",X] | ["val",X] | ["eq",X,k] | ["gt",X,k]
                | ["and",e,e] | ["or",e,e] | ["not",e]     ;  ifdef/ifndef: macro name string
@@ -67,6 +68,15 @@ def render_items(items, lang, fid, out):
             out.append(("blank", ""))
         elif t == "comment":
             out.append(("comment", "! note" if lang == "f90" else "// note"))
+        elif t == "bcomment":
+            out.append(("comment", "/* block"))
+            for _ in range(it[1]):
+                out.append(("comment", "   #define NOT_A_DIRECTIVE 1" if lang != "f90" else "   text"))
+            out.append(("comment", "*/"))
+        elif t == "define" and len(it) > 3 and it[3] == "ml" and it[2] is not None:
+            # a backslash-continued directive: two physical lines, both counted
+            out.append(("dir", f"#define {it[1]} \\"))
+            out.append(("dir", f"    {it[2]}"))
         elif t == "define":
             out.append(("dir", f"#define {it[1]}" + ("" if it[2] is None else f" {it[2]}")))
         elif t == "undef":
